@@ -82,4 +82,37 @@ Definition short_writes_harmless_stmt : Prop :=
   forall wenv senv cs a rs, env_no_error wenv senv -> run1 wenv senv cs = (a, rs) ->
     forallb quiet rs = true.
 
+
+(* ================= the repaired Wal (`failed` flag: xstep / xrun of Crash/Fail.v) ================= *)
+Definition xrun1 (wenv : nat -> wresp) (senv : nat -> bool) (cs : list xcmd) := xrun B C crc wenv senv walx0 cs.
+Definition xdelivered (x : walx) : list (list byte) := records B crc decompress (cur_file (x_wal x)).
+Definition xquiet (r : xres) : bool := match r with XOk | XRejected => true | _ => false end.
+
+(* X1: for EVERY pattern of short writes and errors, every command sequence (close and commands after a
+   failure included), a crash delivers exactly the acknowledged appends, in order — no exclusion *)
+Definition crash_delivers_exactly_acked_stmt : Prop :=
+  fail_geometry ->
+  forall wenv senv cs x rs, xno_rotate cs = true -> xrun1 wenv senv cs = (x, rs) ->
+    xdelivered x = xacked cs rs.
+(* the two plain statements of the property, now theorems *)
+Definition xfailed_invisible_after_crash_stmt : Prop :=
+  fail_geometry ->
+  forall wenv senv cs x rs, xno_rotate cs = true -> xrun1 wenv senv cs = (x, rs) ->
+    forall p, In p (xdelivered x) -> In p (xacked cs rs).
+Definition xlater_acks_recovered_stmt : Prop :=
+  fail_geometry ->
+  forall wenv senv cs x rs, xno_rotate cs = true -> xrun1 wenv senv cs = (x, rs) ->
+    forall p, In p (xacked cs rs) -> In p (xdelivered x).
+
+(* X2: the failure is sticky: once a command failed or was refused, no append is acknowledged any more
+   (any command sequence, rotate included) *)
+Definition no_ack_after_failure_stmt : Prop :=
+  forall wenv senv cs x rs, xrun1 wenv senv cs = (x, rs) -> xack_after false cs rs = false.
+
+(* X3: short writes alone never make a command fail (before close) *)
+Definition xshort_writes_harmless_stmt : Prop :=
+  fail_geometry ->
+  forall wenv senv cs x rs, env_no_error wenv senv -> xno_close cs = true -> xrun1 wenv senv cs = (x, rs) ->
+    forallb xquiet rs = true.
+
 End FailSpec.
